@@ -89,7 +89,7 @@ def make_flags(f):
         min_deadline=0,
         max_deadline=sys.maxsize,
         use_branch_predicated_deadlines=False,
-        resolve_conditionals_at_submission=False,
+        resolve_conditionals_at_submission=bool(f.get("resolve_conditionals_at_submission", False)),
         decompose_deadlines=False,
         scheduler_delay=f["scheduler_delay"],
         runtime_variance=f["runtime_variance"],
